@@ -190,7 +190,16 @@ pub struct P2Case {
 
 fn p2_strategy(max_m: usize) -> impl Strategy<Value = P2Case> {
     (crate::gen::m_strategy(1, max_m), any::<bool>(), weighted_set(0, 60, true).prop_map(|v| v), weighted_set(1, 60, true), any::<u16>(), prop_oneof![40 => Just(0u32), 1 => (0u32..70).prop_map(|d| 65_540 - d), 1 => (0u32..70).prop_map(|d| 131_076 - d)])
-        .prop_map(|(m, wy, prefix, suffix, mid_reset, filler)| P2Case { m: if filler > 0 { 2 + m % 30 } else { m }, wy, prefix, suffix, mid_reset, filler })
+        .prop_map(|(m, wy, mut prefix, mut suffix, mid_reset, filler)| {
+            // one case in 16: every weight is tiny (1e-308 .. 1e-305: the race overflows before all registers are filled,
+            // see the known finding of C02); reset must still give back a new instance
+            if mid_reset % 16 == 3 {
+                for (i, p) in prefix.iter_mut().chain(suffix.iter_mut()).enumerate() {
+                    p.1 = F(f64::from_bits(0x0010_0000_0000_0000 + (p.0 % 0x00B0_0000_0000_0000) + i as u64));
+                }
+            }
+            P2Case { m: if filler > 0 { 2 + m % 30 } else { m }, wy, prefix, suffix, mid_reset, filler }
+        })
 }
 
 fn p2_run<H: std::hash::Hasher + Default>(c: &P2Case) -> Eval {
